@@ -7,6 +7,62 @@ VERIF = os.path.dirname(os.path.dirname(os.path.abspath(__file__)))
 PY = '/venv/bin/python'
 
 CHECKS = {
+    'C03': dict(
+        level='other',
+        text='Decides the structural necessary conditions of "never silently alters data": no wrapping/clipping operator (%, &, min, max, abs, '
+             'shifts, ordering clamps) lies on the flow from the user value to the bit writer in any encoder primitive; write_uint hands '
+             'out-of-range values to bitstring unchanged for every width 1..64 (so bitstring refuses them); rounding precedes truncation at the '
+             'three numeric sites; the flat JSON rendering is the decoded value lists themselves and bytes <-> text use one 8-bit codec on both '
+             'sides (folded over all 256 byte values); what the encoder writes is what the decoder reads (codec symmetry).',
+        note='Range refusal itself is bitstring\'s (trusted base). The half-unit quantisation bound and byte-identity of repeated round trips are '
+             'runtime facts and are not decided.',
+        technique='static analysis: expression-DAG operator audit on encoder value flows, constant folding of writer and codec routines',
+        ref='3 C03'),
+    'C05': dict(
+        level='other',
+        text='Decides that the compressed siblings (numeric, code/flag, string; both coders) follow the same column rules: width from max-min+1, '
+             'missing difference = all ones of the difference width, all-missing / all-equal shortcuts write width 0 (and all_missing implies '
+             'all_equal with a missing common value), the decoder reads the width it was told and applies the 1-bit rule at both sites, string '
+             'columns use a zero base with full-width increments, and lists are shared between subsets only under is_compressed.',
+        note='nbits_for_uint ranges over unbounded integers and is not folded (only its argument is checked). One asymmetry outside the stated raw '
+             'domain (re-test of min+diff against all ones only for code/flag) is deliberately not compared.',
+        technique='static analysis: sibling cross-check of path-evaluated compressed routines; aliasing lint',
+        ref='3 C05'),
+    'C07': dict(
+        level='other',
+        text='Decides the mechanism that links bitmap-driven and associated values to their owner: link keys equal the flat index at which the '
+             'linked value lands (both link sites); back references are the N exact ElementDescriptor entries before the operator and zero bits '
+             'select (folded on a mixed descriptor list); 225255 is coded width+1 / reference -2^width for widths 1..64; operator <-> node class '
+             '<-> meaning-descriptor tables agree across coder, descriptors and wiring; the bitmap-definition state machine (4 states x 4 '
+             'descriptor kinds) equals the reference; define_bitmap takes the last n bits of the current subset; coder/wirer lockstep.',
+        note='Which element a given bitmap designates in a given message is a runtime fact. Known findings (204 in force at a marker; 031031 directly '
+             'after the indicator; 203/206 under 204 in the wirer) are listed in known_findings.json.',
+        technique='static analysis: path-sensitive constant propagation of the walk, the wiring and the bitmap routines over finite state x descriptor domains',
+        ref='3 C07'),
+    'C08': dict(
+        level='other',
+        text='Translation validation of the template compiler by abstract interpretation: for a finite family of abstract templates (about 40 '
+             'curated ones covering every operator, bitmaps inside replications, 235/237 sequences, markers under 201/202/207/208, plus all ordered '
+             'pairs - thorough: triples - of 38 member symbols) the emission trace of compile + process_statements equals the trace of the plain '
+             'walk (primitive, descriptor, resolved width/scale/reference, links, bitmap bookkeeping). Also: recorded names/arity exist on the '
+             'runtime receivers, every state method the walk calls is recorded, to_dict -> loader is the identity on every recorded statement, '
+             'and the cache key contains the whole descriptor list and the whole table-group key.',
+        note='Equality on real data follows only together with C01/C02. Templates whose operators cross a replication boundary (e.g. a 221 count '
+             'running into a replication) are outside the property and are excluded. Known findings: pseudo-descriptor class lost on JSON load; '
+             'nbits_of_associated is compile-time-only but read at run time (marker under 204).',
+        technique='static analysis: differential abstract interpretation (compile/replay vs plain walk) over a finite program family; effect/override rules',
+        ref='3 C08'),
+    'C09': dict(
+        level='other',
+        text='Decides that the template walk emits exactly as many flat entries as TemplateData.wire_members consumes for every operator x operand '
+             'class x {204 in force} x element class x {221, 222 pending} x 203/206 context x replication/sequence shape (213 cases); that every '
+             'node class the wiring creates is rendered by both nested renderers and the nested-JSON keys written are those read back; that the '
+             'flat-text value column (81) and the reader prefixes match what the writers emit; and that command_encode maps the four format '
+             'combinations to the four converters.',
+        note='Conservation of the values of a particular message is a runtime fact. Known findings: coder/wirer disagree when 204 is in force at a '
+             'marker operator, during a 203 definition, or at a 206-skipped defined element.',
+        technique='static analysis: coder/wirer lockstep by path-sensitive constant propagation; reader/writer contract checks over format strings',
+        ref='3 C09'),
     'C01': dict(
         level='other',
         text='Decides the structural necessary conditions of correct decoding for every template and bit pattern: the walk dispatches each '
